@@ -1200,15 +1200,12 @@ class MultiReader(IndexReader):
 
     def column_reader(self, fieldname, column=None, reverse=False,
                       translate=True):
-        crs = []
-        doc_offsets = []
-        for i, r in enumerate(self.readers):
-            if r.has_column(fieldname):
-                cr = r.column_reader(fieldname, column=column, reverse=reverse,
-                                     translate=translate)
-                crs.append(cr)
-                doc_offsets.append(self.doc_offsets[i])
-        return columns.MultiColumnReader(crs, doc_offsets)
+        # Sub-readers without the column return a reader that yields the
+        # default value, so every segment keeps its place in the doc offsets
+        crs = [r.column_reader(fieldname, column=column, reverse=reverse,
+                               translate=translate)
+               for r in self.readers]
+        return columns.MultiColumnReader(crs, self.doc_offsets)
 
     # Per doc methods
 
